@@ -360,6 +360,10 @@ public:
     d["loc"] = X.ploc(F->getLocation());
     d["def"] = F->doesThisDeclarationHaveABody();
     d["static"] = !F->isExternallyVisible();
+    json::Array pts;
+    for (auto *pv : F->parameters()) pts.push_back(pv->getType().getCanonicalType().getAsString());
+    d["ptypes"] = std::move(pts);
+    d["variadic"] = F->isVariadic();
     FDecls.push_back(std::move(d));
     if (F->doesThisDeclarationHaveABody()) Functions.push_back(X.exportFunction(F));
     return true;
